@@ -31,6 +31,7 @@ import (
 	"github.com/tsawler/tabula/font"
 	"github.com/tsawler/tabula/format"
 	"github.com/tsawler/tabula/graphicsstate"
+	"github.com/tsawler/tabula/rag"
 	"github.com/tsawler/tabula/text"
 	"pgregory.net/rapid"
 
@@ -87,6 +88,9 @@ func fileEntry(payload []byte) (string, error) {
 	o().PreserveLayout().Text()
 	o().ExcludeHeadersAndFooters().Text()
 	o().Pages(1).Text()
+	// the Markdown options, at both ends of their ranges
+	o().ToMarkdownWithOptions(rag.MarkdownOptions{IncludeMetadata: true, IncludeTableOfContents: true, HeadingLevelOffset: -3, MaxHeadingLevel: 1})
+	o().ToMarkdownWithOptions(rag.MarkdownOptions{IncludeTableOfContents: true, HeadingLevelOffset: 7, MaxHeadingLevel: 6, IncludePageNumbers: true, IncludeChunkSeparators: true, IncludeChunkIDs: true})
 	format.DetectFromMagic(data)
 	format.DetectFromReader(bytes.NewReader(data), int64(len(data)))
 	return "", nil
@@ -507,6 +511,15 @@ func pdfFaults(name string, r pdfw.Result, emit emitFn) {
 				add(fmt.Sprintf("xref entry %q -> offset of %q", old, string(b[h.Off:h.Off+h.Len])), splice(b, m.Off, 10, fmt.Sprintf("%010d", h.Off)))
 			}
 			add(fmt.Sprintf("xref entry %q flag flipped", old), splice(b, m.Off+17, 1, map[byte]string{'n': "f", 'f': "n"}[b[m.Off+17]]))
+			// every byte of the 20-byte entry := a blank (an entry that is shorter once its white space is
+			// trimmed, shifted fields, a missing flag), a digit, a letter
+			for k := 0; k < 20 && m.Off+k < len(b); k++ {
+				for _, c := range []string{" ", "7", "x"} {
+					if string(b[m.Off+k]) != c {
+						add(fmt.Sprintf("xref entry %q byte %d := %q", old, k, c), splice(b, m.Off+k, 1, c))
+					}
+				}
+			}
 		}
 	}
 }
@@ -758,12 +771,13 @@ func TestPDFFaultCatalogue(t *testing.T) {
 		}
 		if !vr.Thorough() {
 			// of the other layouts the quick tier takes the cheap, file-consistent family only: same-length neighbours
+			// (and the faults of the classic cross-reference table, which only the first layout has)
 			for i, bp := range all {
 				if i == 1 {
 					continue
 				}
 				pdfFaults(bp.name, bp.res, func(entry, ext, fault string, build func() []byte) {
-					if strings.Contains(fault, "(same length)") {
+					if strings.Contains(fault, "(same length)") || (i == 0 && strings.Contains(fault, "xref entry")) {
 						emit(entry, ext, fault, build)
 					}
 				})
